@@ -456,6 +456,10 @@ func HydrateLog(_type LogType, data []byte) (LogPayload, error) {
 	if err != nil {
 		return nil, err
 	}
+	if payload == nil {
+		// JSON null resets the interface instead of filling the payload it points to
+		return nil, fmt.Errorf("missing data for log of type '%s'", _type)
+	}
 
 	return reflect.ValueOf(payload).Elem().Interface().(LogPayload), nil
 }
